@@ -105,7 +105,9 @@ Tun0 == [ opened |-> FALSE, started |-> FALSE, startFail |-> FALSE, chdone |-> F
           srvLastSeen |-> -1, srvMustDie |-> FALSE, cliMustDie |-> FALSE, cliMustFailStart |-> FALSE,
           s2cDeliv |-> 0, idleC2S |-> -1, idleS2C |-> -1, takenC2S |-> 0, takenS2C |-> 0, revUsed |-> -1, chid |-> 0,
           \* the channel has recorded its end (hook cli.close.marked); Err() was first read before that
-          closeMarked |-> FALSE, chEarly |-> FALSE ]
+          closeMarked |-> FALSE, chEarly |-> FALSE,
+          \* live heap of the process (MiB, after a full collection): first observation of the scenario, maximum
+          heapBase |-> -1, heapMax |-> -1 ]
 
 Q0 == [ at |-> FALSE, final |-> FALSE, blocked |-> <<>>, h |-> <<>>, parked |-> <<>>, ctab |-> -1, stab |-> 0,
         nsrv |-> 0, qc2s |-> 0, qs2c |-> 0, g |-> -1, chdone |-> FALSE ]
@@ -635,6 +637,11 @@ OSkip ==
   /\ QOff
   /\ UNCHANGED <<cfg, ws, rp, tun, bad, now, meta>>
 
+OHeap(e) ==
+  /\ tun' = [ tun EXCEPT !.heapBase = IF @ = -1 THEN e.mb ELSE @, !.heapMax = IF e.mb > @ THEN e.mb ELSE @ ]
+  /\ QOff
+  /\ UNCHANGED <<cfg, ws, rp, bad, now, meta>>
+
 \* the channel recorded its end (its error, or none): Err() is settled from here on
 OCloseMarked ==
   /\ tun' = [ tun EXCEPT !.closeMarked = TRUE ]
@@ -675,6 +682,7 @@ OEvent(e) ==
     [] e.ev = "wire.idle" -> OIdle(e)
     [] e.ev = "reg"       -> OReg(e)
     [] e.ev = "hook" /\ e.point = "cli.close.marked" -> OCloseMarked
+    [] e.ev = "heap"      -> OHeap(e)
     [] OTHER              -> OSkip
 
 ---------------------------------------------------------------------------
@@ -994,8 +1002,14 @@ C09_NotWedged ==
      /\ (RealCli /\ tun.idleS2C >= 0) => (tun.idleS2C = tun.takenS2C \/ tun.chdone \/ tun.startFail \/ q.chdone)
 \* nothing is buffered beyond a window per stream: what was delivered and not credited fits, or
 \* the stream has been failed
+\* what a peer makes an endpoint hold on to is bounded by the windows it was granted, not by numbers the
+\* peer announces: the live heap of the process (measured by the scenarios that probe this) does not grow
+\* by more than a few windows' worth
+HeapBound == 48
+C09_HeapBounded == tun.heapBase >= 0 => tun.heapMax - tun.heapBase <= HeapBound
 C09_BoundedBuffer ==
-  (q.at /\ q.parked = <<>>) => \A s \in OSids :
+  /\ C09_HeapBounded
+  /\ (q.at /\ q.parked = <<>>) => \A s \in OSids :
      /\ (RealSrv /\ ~RealCli /\ ws[s].rev = 1 /\ ws[s].newDeliv /\ ~ws[s].halfDeliv /\ SrvAlive /\ ~tun.serveRet) =>
            (ws[s].cDataSum - ws[s].sWuSum <= W \/ ws[s].sClose >= 1)
      /\ (RealCli /\ ~RealSrv /\ ws[s].rev = 1 /\ ws[s].news > 0 /\ CliAlive) =>
